@@ -733,32 +733,55 @@ protected:
 
         mask = (mask<<1) | 1; // get full mask for new bucket
         __TBB_ASSERT( (mask&(mask+1))==0 && (hash & mask) == hash, nullptr );
-    restart:
-        node_base* prev = nullptr;
-        node_base* curr = b_old()->node_list.load(std::memory_order_acquire);
-        while (this->is_valid(curr)) {
-            hashcode_type curr_node_hash = my_hash_compare.hash(static_cast<node*>(curr)->value().first);
+#if TBB_USE_EXCEPTIONS
+        try
+#endif
+        {
+        restart:
+            node_base* prev = nullptr;
+            node_base* curr = b_old()->node_list.load(std::memory_order_acquire);
+            while (this->is_valid(curr)) {
+                hashcode_type curr_node_hash = my_hash_compare.hash(static_cast<node*>(curr)->value().first);
 
-            if ((curr_node_hash & mask) == hash) {
-                if (!b_old.is_writer()) {
-                    if (!b_old.upgrade_to_writer()) {
-                        goto restart; // node ptr can be invalid due to concurrent erase
+                if ((curr_node_hash & mask) == hash) {
+                    if (!b_old.is_writer()) {
+                        if (!b_old.upgrade_to_writer()) {
+                            goto restart; // node ptr can be invalid due to concurrent erase
+                        }
                     }
-                }
-                node_base* next = curr->next;
-                // exclude from b_old
-                if (prev == nullptr) {
-                    b_old()->node_list.store(curr->next, std::memory_order_relaxed);
+                    node_base* next = curr->next;
+                    // exclude from b_old
+                    if (prev == nullptr) {
+                        b_old()->node_list.store(curr->next, std::memory_order_relaxed);
+                    } else {
+                        prev->next = curr->next;
+                    }
+                    this->add_to_bucket(b_new, curr);
+                    curr = next;
                 } else {
-                    prev->next = curr->next;
+                    prev = curr;
+                    curr = curr->next;
                 }
-                this->add_to_bucket(b_new, curr);
-                curr = next;
-            } else {
-                prev = curr;
-                curr = curr->next;
             }
         }
+#if TBB_USE_EXCEPTIONS
+        catch(...) {
+            // The user's hash threw in the middle of the split. The new bucket is already marked as rehashed,
+            // so the nodes still in the parent bucket would never be found again: undo the split - give the
+            // nodes moved so far back to the parent bucket and ask for the rehash again.
+            if (!b_old.is_writer()) {
+                b_old.upgrade_to_writer(); // nothing read before is used after this point
+            }
+            node_base* moved = b_new->node_list.load(std::memory_order_relaxed);
+            while (this->is_valid(moved)) {
+                node_base* next = moved->next;
+                this->add_to_bucket(b_old(), moved);
+                moved = next;
+            }
+            b_new->node_list.store(reinterpret_cast<node_base*>(rehash_req_flag), std::memory_order_release);
+            throw;
+        }
+#endif
     }
 
     template <typename U>
